@@ -239,6 +239,19 @@ func c12UnaryExtreme(r *engine.Run, e refEnv) {
 	if !sameEnv(l, e) || l.Validate() != nil {
 		r.Violation("C12/env.NewEnvelope.extremeMagnitude", "env1", c, envStr(l))
 	}
+	// classification by comparison of the bounds (never through a product that may under- or overflow)
+	isPt := e.X0 == e.X1 && e.Y0 == e.Y1
+	isLn := (e.X0 == e.X1) != (e.Y0 == e.Y1)
+	isRc := e.X0 != e.X1 && e.Y0 != e.Y1
+	if l.IsEmpty() || l.IsPoint() != isPt || l.IsLine() != isLn || l.IsRectangle() != isRc {
+		r.Violation("C12/env.classification.extremeMagnitude", "env1", c, fmt.Sprint(l.IsEmpty(), l.IsPoint(), l.IsLine(), l.IsRectangle()))
+	}
+	if g := l.AsGeometry(); g.IsPolygon() != isRc || g.IsLineString() != isLn || g.IsPoint() != isPt {
+		r.Violation("C12/env.AsGeometry.extremeMagnitude", "env1", c, g.AsText())
+	}
+	if l.Width() != e.X1-e.X0 || l.Height() != e.Y1-e.Y0 {
+		r.Violation("C12/env.WidthHeight.extremeMagnitude", "env1", c, fmt.Sprint(l.Width(), l.Height()))
+	}
 }
 
 func c12XY(r *engine.Run, e refEnv, x, y float64) {
